@@ -566,7 +566,6 @@ static void
 http_response_merge_trailers (request_st * const r)
 {
     /* attempt to merge trailers into headers; header not yet sent by caller */
-    if (buffer_is_blank(&r->gw_dechunk->b)) return;
     const int done = r->gw_dechunk->done;
     if (!done) return; /* XXX: !done; could scan for '\n' and send only those */
 
@@ -575,6 +574,11 @@ http_response_merge_trailers (request_st * const r)
      * trailers, but such actions are better on a different code layer than in
      * http_chunk.c */
     if (done < 400 && r->http_status >= 400) return;
+
+    /* body is complete; response is sent without trailer section
+     * (independent of whether or not gw_dechunk->b still holds final chunk) */
+    http_header_response_unset(r, HTTP_HEADER_OTHER, CONST_STR_LEN("Trailer"));
+    if (buffer_is_blank(&r->gw_dechunk->b)) return;
 
     /* XXX: trailers passed through; no sanity check currently done
      * https://tools.ietf.org/html/rfc7230#section-4.1.2
@@ -596,7 +600,6 @@ http_response_merge_trailers (request_st * const r)
         http_header_response_insert(r, id, k, klen, v,
                                     (size_t)(e - v - (e[-1] == '\r')));
     }
-    http_header_response_unset(r, HTTP_HEADER_OTHER, CONST_STR_LEN("Trailer"));
     buffer_clear(&r->gw_dechunk->b);
 }
 
